@@ -17,18 +17,18 @@ CFG = dict(
                  "IS [NOT] NULL and LIKE are C13's"],
     unproved=["xl (table model of expr-lang incl. its constant folding) = behaviour of the expr-lang VM: correspondence only",
               "render e parses back to e in the rsql / expr parsers (parse_render_id): correspondence only (parser_covers_grammar only says every constructor has a production in the model of the parser)",
-              "implEval_eq_sqlEval_full is refuted (implEval_eq_sqlEval_fails): NOT over an UNKNOWN comparison is TRUE in the two-valued evaluator — class not-over-unknown",
+              "implEval_eq_sqlEval_full is refuted (implEval_eq_sqlEval_fails): a condition used as a comparison operand loses its UNKNOWN — class condition-as-operand (ill-sorted for shapeOK, not generated)",
               "where_eq_sqlEval_full is refuted (where_eq_sqlEval_fails): WHERE and bridge-first SELECT routes on rows where a sub-expression is NULL — class null-operand-exprlang",
               "CASE inside WHERE is refused at Execute — class case-in-where (no theorem: the table model returns an error for CASE)",
               "documented values of the 29 unmodelled built-in functions of the slice (no-panic and history-independence only)"],
 )
 META = dict(
-   text="Proof (partial, stated): for every number type, environment, row (any mix of int/float/text/bool/NULL/missing) and every sort-correct expression (no NOT applied to an UNKNOWN), the model of the hand-written evaluator "
+   text="Proof (partial, stated): for every number type, environment, row (any mix of int/float/text/bool/NULL/missing) and every sort-correct expression (NOT included, evaluated three-valued), the model of the hand-written evaluator "
         "(all three evaluation modes and both CASE loops) yields the SQL three-valued value whenever that value is defined (conditions up to NULL~FALSE); NULL propagates through + - * /, a comparison with NULL is never true, "
         "CASE returns the first true arm / ELSE / NULL; the strict expr-lang table equals SQL on rows where no sub-expression is NULL (WHERE position and bridge); the SELECT router returns the SQL value on every textual route "
         "provided the bridge does; the two process-wide memo tables are transparent for every sequence of evaluations (Lean theorems, unbounded). "
         "Model, router and table are tied to expr/, functions/expr_bridge.go, stream/processor_field.go and rsql.parseWhere by evaluating generated expressions on the real engine in SELECT and WHERE position, on the "
         "hand-written evaluator and on the bridge directly, and the SQL reference semantics is evaluated as an oracle on the engine's results.",
-   note="PARTIAL: expr-lang-routed shapes (WHERE, bridge-first SELECT) are tied by correspondence to a behaviour table, not proved; NOT over an UNKNOWN condition, NULL operands on expr-lang routes and CASE inside WHERE are recorded finding classes. "
+   note="PARTIAL: expr-lang-routed shapes (WHERE, bridge-first SELECT) are tied by correspondence to a behaviour table, not proved; NULL operands on expr-lang routes, CASE inside WHERE and conditions used as comparison operands are recorded finding classes. "
         "Trusted: Lean kernel; hand-written model; harness; Go parsers; built-in function table.",
 )
